@@ -269,8 +269,8 @@ fn take_next_token(text: &str) -> Option<(usize, AstKind)> {
                 .take_while(|b| b.is_ascii_digit())
                 .count();
             if len < text.len() && text.as_bytes()[len] == b'.' {
-                let decimal_len = text
-                    .as_bytes()
+                // the digits after the point (not the integer digits again)
+                let decimal_len = text.as_bytes()[len + 1..]
                     .iter()
                     .take_while(|b| b.is_ascii_digit())
                     .count();
